@@ -14,7 +14,8 @@ HEADER = "(import (scheme base) (scheme write))\n"
 
 
 def case_text(i, body):
-    return "(run-case %d (lambda () %s))\n" % (i, body)
+    tops, expr = gen_core.split_top(body)
+    return (tops + "\n" if tops else "") + "(run-case %d (lambda () %s))\n" % (i, expr)
 
 
 def run_ref(progs):
